@@ -342,7 +342,6 @@ func (c *Check) handlersAddNoRejection(rule string, msgs ...string) {
 	c.req(n >= 1, rule, "handlers", token.NoPos, fmt.Sprintf("%d message handlers examined", n))
 }
 
-
 // outsideWindowOnly: the fact says no more than "the current block lies strictly outside the request's window" — the block
 // height is greater than the request's expiration height, or less than its request height — possibly through a helper
 // (a predicate, or a validator whose failure is the fact). Any other comparison (≥ at the expiration height, which turns
